@@ -1129,6 +1129,56 @@ func (g *wgen) component(t *wty, depth int) *wexpr {
 	return &wexpr{k: "swz", ty: t, name: string(swzNames[g.c.rng.Intn(n)]), args: []*wexpr{base}}
 }
 
+
+// ptrArg: `&x` for a mutable function-space place of type t: a whole local, an array element or a struct field.
+func (g *wgen) ptrArg(t *wty, used map[string]bool) *wexpr {
+	type cand struct {
+		e    *wexpr
+		root string
+	}
+	var cs []cand
+	for _, v := range g.visible(func(v wscopeVar) bool { return v.mutable && !v.ptr && !v.locked && !v.global && !used[v.name] }) {
+		base := &wexpr{k: "var", ty: v.ty, name: v.name}
+		switch {
+		case v.ty.eq(t):
+			cs = append(cs, cand{base, v.name})
+		case v.ty.k == "arr" && v.ty.elem.eq(t):
+			var i *wexpr
+			if g.c.chance(0.5) {
+				i = &wexpr{k: "lit", ty: tU32, bits: uint32(g.c.rng.Intn(v.ty.n)), konst: true, small: true}
+			} else {
+				i = &wexpr{k: "bin", ty: tU32, op: "%", args: []*wexpr{g.load(tU32), {k: "lit", ty: tU32, bits: uint32(v.ty.n), konst: true, small: true}}}
+			}
+			cs = append(cs, cand{&wexpr{k: "idx", ty: t, args: []*wexpr{base, i}}, v.name})
+		case v.ty.k == "struct":
+			for _, f := range v.ty.flds {
+				if f.ty.eq(t) {
+					cs = append(cs, cand{&wexpr{k: "field", ty: t, name: f.name, args: []*wexpr{base}}, v.name})
+				}
+			}
+		}
+	}
+	if len(cs) == 0 {
+		return nil
+	}
+	c := cs[g.c.rng.Intn(len(cs))]
+	// prefer component places when there are any (they exercise the spill / copy-out paths)
+	var comps []cand
+	for _, x := range cs {
+		if x.e.k != "var" {
+			comps = append(comps, x)
+		}
+	}
+	if len(comps) > 0 && g.c.chance(0.7) {
+		c = comps[g.c.rng.Intn(len(comps))]
+	}
+	used[c.root] = true
+	if c.e.k != "var" {
+		g.f("ptr-arg-component")
+	}
+	return &wexpr{k: "addr", ty: t, args: []*wexpr{c.e}}
+}
+
 func (g *wgen) callfn(t *wty, depth int) *wexpr {
 	var cands []*wfunc
 	for _, f := range g.funcs {
@@ -1144,15 +1194,11 @@ func (g *wgen) callfn(t *wty, depth int) *wexpr {
 	usedPtr := map[string]bool{}
 	for i, p := range f.params {
 		if f.ptrs[i] {
-			vs := g.visible(func(v wscopeVar) bool {
-				return v.ty.eq(p.ty) && v.mutable && !v.ptr && !v.locked && !v.global && !usedPtr[v.name]
-			})
-			if len(vs) == 0 {
+			a := g.ptrArg(p.ty, usedPtr)
+			if a == nil {
 				return nil
 			}
-			v := vs[g.c.rng.Intn(len(vs))]
-			usedPtr[v.name] = true
-			args[i] = &wexpr{k: "addr", ty: p.ty, args: []*wexpr{{k: "var", ty: p.ty, name: v.name}}}
+			args[i] = a
 		} else {
 			args[i] = g.expr(p.ty, depth-1)
 		}
@@ -1211,10 +1257,10 @@ func (g *wgen) lvalue() (*wexpr, *wty) {
 
 func (g *wgen) localTy() *wty {
 	r := g.c.rng.Intn(10)
-	if r < 1 {
+	if r < 2 {
 		return tArr(2+g.c.rng.Intn(3), g.scalarTy())
 	}
-	if r < 2 && g.o.structs && len(g.m.structs) > 0 {
+	if r < 4 && g.o.structs && len(g.m.structs) > 0 {
 		return g.m.structs[g.c.rng.Intn(len(g.m.structs))]
 	}
 	return g.valueTy()
@@ -1411,6 +1457,11 @@ func (g *wgen) stmt(depth int) *wstmt {
 	case r < 94 && g.curRet != nil && !g.inCont:
 		g.f("early-return-value")
 		return &wstmt{k: "if", e: g.runtime(tBool, 2), body: []*wstmt{{k: "return", e: g.expr(g.curRet, 2)}}}
+	case r < 95 && !g.inCont:
+		if b := g.ptrCallBlock(); b != nil {
+			return b
+		}
+		return g.storeOut(2)
 	case r < 97:
 		// call a helper for its side effects (pointer params / buffers)
 		for _, f := range g.funcs {
@@ -1434,20 +1485,100 @@ func (g *wgen) stmt(depth int) *wstmt {
 	}
 }
 
+
+// ptrCallBlock: declare an array on the spot and pass `&arr[i]` to a helper that takes a pointer,
+// then observe both the helper's result and the array element.
+func (g *wgen) ptrCallBlock() *wstmt {
+	var cands []*wfunc
+	for _, f := range g.funcs {
+		for i := range f.params {
+			if f.ptrs[i] {
+				cands = append(cands, f)
+				break
+			}
+		}
+	}
+	if len(cands) == 0 {
+		return nil
+	}
+	f := cands[g.c.rng.Intn(len(cands))]
+	g.push()
+	defer g.pop()
+	var body []*wstmt
+	args := make([]*wexpr, len(f.params))
+	var observe []*wexpr
+	for i, p := range f.params {
+		if !f.ptrs[i] {
+			args[i] = g.expr(p.ty, 2)
+			continue
+		}
+		n := 2 + g.c.rng.Intn(3)
+		at := tArr(n, p.ty)
+		name := g.fresh("vv")
+		body = append(body, &wstmt{k: "var", name: name, ty: at, e: g.aggregate(at, 2)})
+		var idx *wexpr
+		if g.c.chance(0.5) {
+			idx = &wexpr{k: "lit", ty: tU32, bits: uint32(g.c.rng.Intn(n)), konst: true, small: true}
+		} else {
+			idx = &wexpr{k: "bin", ty: tU32, op: "%", args: []*wexpr{g.load(tU32), {k: "lit", ty: tU32, bits: uint32(n), konst: true, small: true}}}
+		}
+		place := &wexpr{k: "idx", ty: p.ty, args: []*wexpr{{k: "var", ty: at, name: name}, idx}}
+		args[i] = &wexpr{k: "addr", ty: p.ty, args: []*wexpr{place}}
+		for j := 0; j < n; j++ {
+			observe = append(observe, &wexpr{k: "idx", ty: p.ty, args: []*wexpr{{k: "var", ty: at, name: name}, {k: "lit", ty: tU32, bits: uint32(j), konst: true, small: true}}})
+		}
+	}
+	g.f("ptr-call-block")
+	toWord := func(e *wexpr) *wexpr {
+		t := e.ty
+		var v *wexpr
+		switch t.scalarOf().k {
+		case "u32":
+			v = e
+		case "bool":
+			v = &wexpr{k: "call", ty: t.withScalar(tU32), name: "select", args: []*wexpr{g.splat(t.withScalar(tU32), 0), g.splat(t.withScalar(tU32), 1), e}}
+		default:
+			v = &wexpr{k: "bitcast", ty: t.withScalar(tU32), args: []*wexpr{e}}
+		}
+		if t.k == "vec" {
+			mul := make([]*wexpr, t.n)
+			for i := range mul {
+				mul[i] = &wexpr{k: "lit", ty: tU32, bits: uint32(2*i + 3), konst: true, small: true}
+			}
+			v = &wexpr{k: "call", ty: tU32, name: "dot", args: []*wexpr{v, {k: "cons", ty: tVec(t.n, tU32), args: mul, konst: true}}}
+		}
+		return v
+	}
+	out := func(e *wexpr) *wstmt {
+		idx := g.outIdx % g.nOut
+		g.outIdx++
+		return &wstmt{k: "opassign", op: "^", lhs: &wexpr{k: "idx", ty: tU32, args: []*wexpr{{k: "var", ty: tArr(0, tU32), name: "outp"}, {k: "lit", ty: tU32, bits: uint32(idx), konst: true, small: true}}}, e: toWord(e)}
+	}
+	call := &wexpr{k: "callfn", ty: f.ret, name: f.name, args: args}
+	if f.ret != nil {
+		rn := g.fresh("ll")
+		body = append(body, &wstmt{k: "let", name: rn, ty: f.ret, e: call})
+		body = append(body, out(&wexpr{k: "var", ty: f.ret, name: rn}))
+	} else {
+		call.ty = &wty{k: "void"}
+		body = append(body, &wstmt{k: "callstmt", e: call})
+	}
+	for _, o := range observe {
+		body = append(body, out(o))
+	}
+	return &wstmt{k: "block", body: body}
+}
+
 func (g *wgen) callVoid(f *wfunc) *wexpr {
 	args := make([]*wexpr, len(f.params))
 	usedPtr := map[string]bool{}
 	for i, p := range f.params {
 		if f.ptrs[i] {
-			vs := g.visible(func(v wscopeVar) bool {
-				return v.ty.eq(p.ty) && v.mutable && !v.ptr && !v.locked && !v.global && !usedPtr[v.name]
-			})
-			if len(vs) == 0 {
+			a := g.ptrArg(p.ty, usedPtr)
+			if a == nil {
 				return nil
 			}
-			v := vs[g.c.rng.Intn(len(vs))]
-			usedPtr[v.name] = true
-			args[i] = &wexpr{k: "addr", ty: p.ty, args: []*wexpr{{k: "var", ty: p.ty, name: v.name}}}
+			args[i] = a
 		} else {
 			args[i] = g.expr(p.ty, 2)
 		}
